@@ -85,7 +85,7 @@ func crossConfigs(quick bool) (l []cfg) {
 // op is one operation of a history.  C repeats the configuration in every
 // operation so that a recorded history is self-contained.
 type op struct {
-	K string `json:"k"`           // bad, good, req, out, adv, restart
+	K string `json:"k"`           // bad, good, req, requ, out, adv, restart
 	A int    `json:"a,omitempty"` // bad/good: address index; req/out: cookie index (order of issue)
 	D int64  `json:"d,omitempty"` // adv: seconds
 	C string `json:"c"`           // maxAttempts/blockSeconds/ttlSeconds
@@ -97,6 +97,8 @@ func (o op) String() string {
 		return fmt.Sprintf("%s-login(addr%d)", o.K, o.A)
 	case "req":
 		return fmt.Sprintf("request(cookie%d)", o.A)
+	case "requ":
+		return fmt.Sprintf("request(cookie%d spelled in upper case)", o.A)
 	case "out":
 		return fmt.Sprintf("logout(cookie%d)", o.A)
 	case "adv":
@@ -124,7 +126,8 @@ func advances(cf cfg) []int64 {
 //	X (cross):    everything, 17 operations.
 //	T (throttle): logins from both addresses, the clock steps around the
 //	              1-minute window and the block period, restart; 10 operations.
-//	S (sessions): one login, request/logout with both cookies, the clock steps
+//	S (sessions): one login, request/logout with both cookies, a request with
+//	              the first cookie spelled in upper case, the clock steps
 //	              around the day boundary, the TTL and a day, restart; 11 operations.
 func alphabet(pass string, cf cfg) (ops []op) {
 	c := cf.String()
@@ -148,6 +151,7 @@ func alphabet(pass string, cf cfg) (ops []op) {
 		ops = append(ops, op{K: "good", A: 0, C: c})
 		two("req")
 		two("out")
+		ops = append(ops, op{K: "requ", A: 0, C: c})
 		adv(59, 61, cf.TTL-1, cf.TTL+1, day)
 		ops = append(ops, op{K: "restart", C: c})
 	default:
@@ -497,6 +501,20 @@ func (rs *runState) apply(o op, idx int) (res stepResult) {
 			rs.issued = append(rs.issued, cookie)
 			m.sess = append(m.sess, &msess{created: m.now, lastUse: m.now})
 		}
+	case "requ":
+		// Another spelling of the token's hex digits is not the token.
+		tok := strings.ToUpper(rs.token(o.A))
+		if tok == rs.token(o.A) {
+			res.skip = true
+			return res
+		}
+		status, ran := home.VerifC12Request(tok)
+		if ran {
+			res.vkey = "session:other-spelling-authenticates"
+			res.vdesc = fmt.Sprintf("%s was authenticated (status %d): only the token as issued is a session token", o, status)
+			return res
+		}
+		res.outcome = "requ:rejected"
 	case "req", "out":
 		v, phase := m.judge(o.A)
 		var ran bool
@@ -905,7 +923,7 @@ func main() {
 				"bfs_runs":                      m.Counters["bfs_runs"],
 				"bfs_runs_cut_by_budget":        m.Counters["bfs_runs_cut_by_budget"],
 				"skipped_boundary_landings":     m.Counters["skipped_boundary_landings"],
-				"rule": "BFS over timed histories executed on the real handleLogin (behind the method/content-type wrapper), handleLogout (behind optionalAuth), an optionalAuth-wrapped probe handler, InitAuth and authRateLimiter under the virtual clock; restart = Close + InitAuth with a fresh rate limiter on the same sessions.db. Three passes (note_plan): T throttle-only alphabet on every (maxAttempts, blockDur); S session-only alphabet on every TTL; X the full alphabet on the listed configurations. Every BFS is cut into parts by the hash of the states reached at a fixed history length (note_plan); parts are dealt to 16 processes. A state is (failed-attempt table, in-memory session table, sessions.db content, time of day, model), see the key function for what is dropped and why. Oracle after every step: status 429+Retry-After / 403 / 200+fresh cookie against the per-address (count, windowEnd) automaton; authentication of each cookie against two-sided session bounds (must before created+TTL, must not after logout / at or after lastUse+TTL / once seen expired, also across restart); no token in the session tables that no response delivered (a blocked login must not create a session). A clock step that would land exactly on a model boundary is not taken (skipped_boundary_landings). non-trivial = blocked login, 2nd+ or blocking failure, success that clears a record, request/logout with an issued cookie, restart with sessions",
+				"rule":                          "BFS over timed histories executed on the real handleLogin (behind the method/content-type wrapper), handleLogout (behind optionalAuth), an optionalAuth-wrapped probe handler, InitAuth and authRateLimiter under the virtual clock; restart = Close + InitAuth with a fresh rate limiter on the same sessions.db. Three passes (note_plan): T throttle-only alphabet on every (maxAttempts, blockDur); S session-only alphabet on every TTL; X the full alphabet on the listed configurations. Every BFS is cut into parts by the hash of the states reached at a fixed history length (note_plan); parts are dealt to 16 processes. A state is (failed-attempt table, in-memory session table, sessions.db content, time of day, model), see the key function for what is dropped and why. Oracle after every step: status 429+Retry-After / 403 / 200+fresh cookie against the per-address (count, windowEnd) automaton; authentication of each cookie against two-sided session bounds (must before created+TTL, must not after logout / at or after lastUse+TTL / once seen expired, also across restart); no token in the session tables that no response delivered (a blocked login must not create a session). A clock step that would land exactly on a model boundary is not taken (skipped_boundary_landings). non-trivial = blocked login, 2nd+ or blocking failure, success that clears a record, request/logout with an issued cookie, restart with sessions",
 			}
 		},
 		Assumptions: []string{
